@@ -343,8 +343,13 @@ def _fast(rec, case):
     sig = {'route': 'fast_assembler', 'dim': dim, 'which': which}
     ref = getattr(assemble, which)(kvs, geo).toarray()
     np.random.seed(int(rng.integers(0, 2 ** 31)))
-    with contextlib.redirect_stdout(io.StringIO()):
-        ok, A = guarded(rec, c, sig, getattr(assemble, which + '_fast'), kvs, geo, tol=tol, maxiter=200, verbose=0)
+    buf = io.StringIO()
+    with contextlib.redirect_stdout(buf):
+        ok, A = guarded(rec, c, sig, getattr(assemble, which + '_fast'), kvs, geo, tol=tol, maxiter=200, verbose=1)
+    # how the cross approximation says it terminated (part of the mechanism signature of a deviation)
+    log = buf.getvalue()
+    sig = dict(sig, stopped_by='skipcount' if 'Skipped' in log or 'skip count' in log else ('tolerance' if 'tolerance' in log else ('maxiter' if 'aximum iteration' in log else 'unknown')))
+    rec.count('fast_stop:' + sig['stopped_by'])
     if ok:
         Ad = A.toarray() if hasattr(A, 'toarray') else np.asarray(A)
         if Ad.shape != ref.shape:
